@@ -218,3 +218,60 @@ func VH_C06_AckLoss() {
 	vAssert(p.cli.sendQueue.size() == 0, "send queue not empty although everything was delivered and acknowledged")
 	p.shutdown()
 }
+
+// VH_C06_SyncWake: the post-resend synchronisation can always be left again.
+// The send goroutine resends a queue of two packets through a transport whose
+// writes take 100 ms each (a blocking stream write) and then waits for the
+// sync; the receive goroutine meanwhile processes two acknowledgement events
+// (ACK of the last packet, NACK(top), ACK of the first packet, or nothing) at
+// symbolic instants: during the first write, during the second write, right
+// after the writes, after more than one resend timeout, or after the awaiting
+// timeout. Whatever the order, resend() returns within the writes plus the
+// awaiting timeout (3 x resend timeout) plus one resend timeout: a wake-up
+// that is lost because it was sent before the waiter listened must be covered
+// by the timeout, otherwise the send loop is stuck for good with both ends
+// open (data pending, acknowledgements still exchanged, nothing delivered).
+func VH_C06_SyncWake() {
+	tm := NewTimeOutManager(nil, WithStaticResendTimeout(time.Second))
+	q := newQueue(&queueCfg{s: 4, sendPkt: func(*PacketData) error {
+		time.Sleep(100 * time.Millisecond)
+		return nil
+	}}, tm)
+	q.addPacket(&PacketData{Payload: []byte{0}})
+	q.addPacket(&PacketData{Payload: []byte{1}})
+	at := [5]time.Duration{50 * time.Millisecond, 150 * time.Millisecond, 250 * time.Millisecond, 1300 * time.Millisecond, 3300 * time.Millisecond}
+	ev := func(k int) {
+		switch k {
+		case 1:
+			q.processACK(1) // the last queued packet: the expected ACK
+		case 2:
+			q.processNACK(2) // NACK(top): everything arrived
+		case 3:
+			q.processACK(0)
+		}
+	}
+	e1, e2 := vIntRange("ev1", 0, 3), vIntRange("ev2", 0, 3)
+	t1 := vIntRange("at1", 0, 4)
+	t2 := vIntRange("at2", t1, 4)
+	go func() {
+		time.Sleep(at[t1])
+		ev(e1)
+		time.Sleep(at[t2] - at[t1])
+		ev(e2)
+	}()
+	done := make(chan struct{})
+	start := time.Now()
+	go func() {
+		_ = q.resend()
+		close(done)
+	}()
+	select {
+	case <-done:
+		vReach("sync-left")
+		vAssert(time.Since(start) <= 200*time.Millisecond+4*time.Second+100*time.Millisecond, "resend returned later than writes + awaiting timeout + one resend timeout")
+	case <-time.After(30 * time.Second):
+		vReach("sync-stuck")
+		vAssert(false, "the send loop is still waiting for the post-resend sync 30 s later: no timeout left to end it (silent stall)")
+	}
+	q.stop()
+}
